@@ -62,6 +62,9 @@ mod c08;
 mod c09;
 mod c10;
 mod c12;
+mod c14;
+mod c15;
+mod c16;
 mod c17;
 mod c18;
 mod c19;
